@@ -319,6 +319,18 @@ theorem frame_setCoordFromAF (o : Ops V) (c nm : String) :
   unfold setCoordFromAF
   frame_auto
 
+theorem frame_dist2D {T : String → Prop} (o : Ops V) (i j : Nat) :
+    Frame T (fun _ => True) (dist2D (σ := ATab V) o i j) := by
+  unfold dist2D
+  frame_auto
+macro_rules | `(tactic| frame_leaf) => `(tactic| exact frame_dist2D _ _ _)
+
+theorem frame_speedBetween {T : String → Prop} (o : Ops V) (i j : Nat) :
+    Frame T (fun _ => True) (speedBetween (σ := ATab V) o i j) := by
+  unfold speedBetween
+  frame_auto
+macro_rules | `(tactic| frame_leaf) => `(tactic| exact frame_speedBetween _ _ _)
+
 theorem frame_evalAlgo {T : String → Prop} (o : Ops V) (alg : Algo V) (i : Nat) :
     Frame T (fun _ => True) (evalAlgo (σ := ATab V) o alg i) := by
   cases alg <;> (unfold evalAlgo; frame_auto)
@@ -402,6 +414,34 @@ theorem frame_fnVoidOp (o : Ops V) (f inp out : String) :
   cases vfn? f with
   | none => exact frame_throw _
   | some vf => exact frame_runVFn o vf inp out
+
+theorem frame_absCurvOp (o : Ops V) :
+    Frame (fun m => m = "ds" ∨ m = "abs_curv") (fun _ => True) (absCurvOp (σ := ATab V) o) := by
+  unfold absCurvOp
+  refine frame_bind (P := fun _ => True) (frame_has _) (fun b1 _ => ?_)
+  refine frame_bind (V := V) (P := fun _ => True) ?_ (fun _ _ => ?_)
+  · refine frame_ite _ (fun _ => frame_pure _ trivial) (fun _ => ?_)
+    exact frame_bind (P := fun _ => True) (frame_weaken (frame_addAF o .ds "ds") (fun m hm => Or.inl hm) (fun _ _ => trivial))
+      (fun _ _ => frame_pure _ trivial)
+  refine frame_bind (P := fun _ => True) (frame_has _) (fun b2 _ => ?_)
+  refine frame_bind (V := V) (P := fun _ => True) ?_ (fun _ _ => ?_)
+  · refine frame_ite _ (fun _ => frame_pure _ trivial) (fun _ => ?_)
+    exact frame_bind (P := fun _ => True)
+      (frame_weaken (frame_unaryVoid o .integrator "ds" "abs_curv") (fun m hm => Or.inr hm) (fun _ _ => trivial))
+      (fun _ _ => frame_pure _ trivial)
+  refine frame_bind (P := fun _ => True) (frame_weaken (frame_remove "ds") (fun m hm => Or.inl hm) (fun _ _ => trivial)) (fun _ _ => ?_)
+  exact frame_get o _
+
+theorem frame_estSpeedOp (o : Ops V) :
+    Frame (· = "speed") (fun _ => True) (estSpeedOp (σ := ATab V) o) := by
+  unfold estSpeedOp
+  refine frame_bind (P := fun _ => True) (frame_has _) (fun b _ => ?_)
+  exact frame_ite _ (fun _ => frame_get o _) (fun _ => frame_addAF o .speed "speed")
+
+theorem frame_segmentOp (o : Ops V) (inp out : String) (thr : V) :
+    Frame (· = out) (fun _ => True) (segmentOp (σ := ATab V) o inp out thr) := by
+  unfold segmentOp
+  frame_auto
 
 theorem frame_sumOp {T : String → Prop} (o : Ops V) (inp : String) :
     Frame T (fun _ => True) (sumOp (σ := ATab V) o inp) := by
@@ -694,6 +734,9 @@ def touched : Op V → String → Prop
   | .fnVoid _ inp out, m => m = out.getD inp
   | .scalarK _ inp _ out, m => m = out.getD inp
   | .aggFn _ _, _ => False
+  | .absCurv, m => m = "ds" ∨ m = "abs_curv"
+  | .estSpeed, m => m = "speed"
+  | .segment _ out _, m => m = out
   | .expr rpn, m => exprT rpn m
 
 theorem frame_step (o : Ops V) (op : Op V) : Frame (touched op) (fun _ => True) (step (σ := ATab V) o op) := by
@@ -714,6 +757,9 @@ theorem frame_step (o : Ops V) (op : Op V) : Frame (touched op) (fun _ => True) 
   | fnVoid f inp out => unfold step; exact frame_fnVoidOp o f inp _
   | scalarK k inp arg out => unfold step; exact frame_bind (P := fun _ => True) (frame_scalarKind o k inp arg _) (fun _ _ => frame_pure _ trivial)
   | aggFn f inp => unfold step; exact frame_bind (P := fun _ => True) (frame_aggOp o f inp) (fun _ _ => frame_pure _ trivial)
+  | absCurv => unfold step; exact frame_bind (P := fun _ => True) (frame_absCurvOp o) (fun _ _ => frame_pure _ trivial)
+  | estSpeed => unfold step; exact frame_bind (P := fun _ => True) (frame_estSpeedOp o) (fun _ _ => frame_pure _ trivial)
+  | segment inp out thr => unfold step; exact frame_bind (P := fun _ => True) (frame_segmentOp o inp out thr) (fun _ _ => frame_pure _ trivial)
   | expr rpn => unfold step; exact frame_operateStr o rpn
 
 theorem aread_same (o : Ops V) {T : String → Prop} {a a' : ATab V} (h : Same T a a') (m : String) (hm : ¬ T m) :
